@@ -24,9 +24,18 @@ from zope.testrunner import run
 run(defaults=["--path", os.path.dirname(os.path.abspath(__file__))])
 """
 
+# a wrapper without suffix (buildout's bin/test): it extends sys.path - code the tests import lives there - and hands
+# over to the runner; layer subprocesses have to go through it again
+RUN_SCRIPT_WRAPPER = """import os, sys
+sys.path.insert(0, os.path.join(os.path.dirname(os.path.abspath(__file__)), "extra_path"))
+from zope.testrunner import run
+run()
+"""
+
 MODULE_SRC = """import wrt
 wrt.trace({"ev": "modimport", "m": __name__})
 wrt.fail_import(__name__, "import")
+wrt.trace({"ev": "modok", "m": __name__})
 
 
 def test_suite():
@@ -434,6 +443,11 @@ def materialize(world, d):
         f.write(RUN_SCRIPT)
     with open(os.path.join(d, "ztr_run_d.py"), "w") as f:
         f.write(RUN_SCRIPT_DEFAULTS)
+    with open(os.path.join(d, "ztr_wrap"), "w") as f:
+        f.write(RUN_SCRIPT_WRAPPER)
+    os.makedirs(os.path.join(d, "extra_path"), exist_ok=True)
+    with open(os.path.join(d, "extra_path", "whelper.py"), "w") as f:
+        f.write("VALUE = 1\n")
     plain = set(world.get("plainDirs") or [])
     aliases = world.get("aliases") or {}
     for m in world["modules"]:
@@ -463,6 +477,8 @@ def cli_args(d, o, extra=()):
     head = [common.PY, os.path.join(d, "ztr_run.py"), "--path", "." if o.get("relpath") else d]
     if o.get("defaults_path"):
         head = [common.PY, os.path.join(d, "ztr_run_d.py")]
+    if o.get("wrapper"):
+        head[1] = os.path.join(d, "ztr_wrap")
     rnd = _random.Random(o["argseed"]) if o.get("argseed") is not None else None
 
     def opt(name, value):
